@@ -450,7 +450,34 @@ def r3_5b(U, rep, tier):
             construct='x = x_prev perturbed to first order (dual numbers): xd.vel == u / dt, xd.ang == w / dt')
 
 
+def r3_6(U, rep):
+  """R3.6 [call-site configuration] every iterative jaxopt solver constructed in code reachable from the pipelines is
+  differentiated by UNROLLING (implicit_diff=False): brax runs it for a handful of iterations, so the iterate it returns is
+  not the optimum, and implicit differentiation would return the gradient of a different function than the one computed
+  (finite, but not the finite-difference derivative whenever a constraint is active)."""
+  R = set(U.pipeline_reach())
+  sites = []
+  for q in sorted(R):
+    f = U.funcs[q]
+    for n in own_nodes(f.node):
+      if isinstance(n, ast.Call):
+        name = call_name(n, f.mod) or ''
+        if name.startswith('jaxopt.') and name.rsplit('.', 1)[1][:1].isupper():
+          sites.append((f, n, name))
+  if not sites:
+    rep.note('R3.6: no jaxopt solver is constructed in pipeline-reachable code any more')
+    return
+  for f, n, name in sites:
+    kw = {k.arg: k.value for k in n.keywords if k.arg}
+    v = kw.get('implicit_diff')
+    ok = isinstance(v, ast.Constant) and v.value is False
+    rep.check(ok, 'R3.6', '%s in %s is differentiated by unrolling' % (name, f.qname),
+              '%s is constructed without implicit_diff=False: the gradient of the pipeline step would be that of the exact optimum, '
+              'not of the truncated iterate the step returns' % name, where=f.where(n), construct=ast.unparse(n)[:120])
+
+
 def run(U, rep, tier):
+  r3_6(U, rep)
   r3_sites(U, rep, tier)
   r3_4(U, rep)
   r3_5(U, rep, tier)
